@@ -25,6 +25,7 @@ import (
 	"github.com/pkg/errors"
 	"go.uber.org/multierr"
 	"google.golang.org/grpc/codes"
+	"google.golang.org/grpc/metadata"
 	"google.golang.org/grpc/status"
 
 	"github.com/oxia-db/oxia/common/concurrent"
@@ -610,6 +611,16 @@ type MessageWithTerm interface {
 
 func (fc *followerController) SendSnapshot(stream proto.OxiaLogReplication_SendSnapshotServer) error {
 	fc.Lock()
+
+	// Installing a snapshot starts by wiping the log and the database of this node: only
+	// the leader of the term this node is in may get that far (the chunks are checked
+	// against the term too, but by then the state is already gone).
+	if md, ok := metadata.FromIncomingContext(stream.Context()); ok && fc.term != wal.InvalidTerm {
+		if term, err := readTerm(md); err == nil && term != wal.InvalidTerm && term != fc.term {
+			fc.Unlock()
+			return constant.ErrInvalidTerm
+		}
+	}
 
 	if fc.closeStreamWg != nil {
 		fc.Unlock()
